@@ -47,9 +47,12 @@ func (s *Session) ExecQuery(q string) error {
 		return nil
 	case sql.UseStatement:
 		var err error
+		prevDB, prevRS := s.CurDB, s.RelationService
 		s.CurDB = stmt.DBName
 		s.RelationService, err = storage.OpenRelation(stmt.DBName, true)
 		if err != nil {
+			// a failed USE must leave the previously selected database in place
+			s.CurDB, s.RelationService = prevDB, prevRS
 			return err
 		}
 		fmt.Printf("selected database %s\n\r", stmt.DBName)
